@@ -558,6 +558,12 @@ theorem claimKey_injective (h h' : Nat) (ev ev' : Ev)
     cases ok <;> cases ok' <;> simp at hk ⊢
   · exact hk
 
+/-- non-vacuity of `claimKey_injective` (its hypothesis is satisfiable) and its use: claims that differ only in the
+reported height have different keys -/
+example : claimKey FxVerif.Gen.C06.claimHashFields 7 (.batch 1 2) = claimKey FxVerif.Gen.C06.claimHashFields 7 (.batch 1 2) ∧
+    claimKey FxVerif.Gen.C06.claimHashFields 7 (.batch 1 2) ≠ claimKey FxVerif.Gen.C06.claimHashFields 8 (.batch 1 2) := by
+  decide
+
 /-- a voted history IS a history of the C05 / C06 model: the state reached through any sequence of user operations and
 single votes of the oracles equals the state the base model reaches on the trace — the user operations plus one `observe`
 per quorum-completing vote.  Every theorem above (and every C05 theorem) about `run` therefore holds of voted histories. -/
